@@ -45,10 +45,18 @@ deriving DecidableEq, Repr
 
 /-- `tag.interesting_string_types`: `None`, a class, or a collection of classes -/
 inductive Interesting where
-  | none
+  | none                          -- `None` on a stock `Tag` (fallback: `Tag.MAIN_CONTENT_STRING_TYPES`)
   | one (c : StrClass)
   | many (cs : List StrClass)
+  | noneOf (cm : List StrClass)   -- `None` on a tag whose class (a `Tag` subclass installed through `element_classes`,
+                                  -- or a `BeautifulSoup` subclass) overrides `MAIN_CONTENT_STRING_TYPES` with `cm`:
+                                  -- the fallback of `_all_strings` is `self.MAIN_CONTENT_STRING_TYPES`
 deriving DecidableEq, Repr
+
+/-- the attribute value `i` as it is seen on a tag whose class has `MAIN_CONTENT_STRING_TYPES = cm` -/
+def Interesting.ofClass (cm : List StrClass) : Interesting → Interesting
+  | .none => .noneOf cm
+  | i => i
 
 inductive Node where
   | str (cls : StrClass) (val : PStr)
@@ -67,6 +75,7 @@ def resolveTag (main : List StrClass) (i : Interesting) : TypesArg → Types
     | .none => .many main
     | .one c => .one c
     | .many cs => .many cs
+    | .noneOf cm => .many cm
   | .none => .all
   | .one c => .one c
   | .many cs => .many cs
@@ -222,7 +231,8 @@ end
 
 /-! ### configuration: which strings a tag counts, which class parsed text gets -/
 
-/-- `Tag.__init__` with a builder: `{builder.string_containers[self.name]}` when the name is a
+/-- `Tag.__init__` with a builder (`main` = `self.MAIN_CONTENT_STRING_TYPES`, i.e. that of the tag's own class — a `Tag`
+    subclass installed through `element_classes` may override it): `{builder.string_containers[self.name]}` when the name is a
     string container, else `MAIN_CONTENT_STRING_TYPES` -/
 def interestingFor (main : List StrClass) (containers : List (PStr × StrClass)) (name : PStr) : Interesting :=
   match containers.lookup name with
@@ -274,6 +284,13 @@ def tagInitInteresting (main : List StrClass) (builder : Option (Option (List (P
   | Option.none => .ok param
   | some Option.none => .typeError
   | some (some cont) => .ok (interestingFor main cont name)
+
+/-- `BeautifulSoup.__getstate__`/`__setstate__`: the builder object is pickled with the document when it is
+    `picklable` (html.parser); otherwise only its class is kept and `__setstate__` instantiates it with default
+    arguments, i.e. with the class's `DEFAULT_STRING_CONTAINERS`. The tree is then re-parsed with that builder. -/
+def pickledStringContainers (picklable : Bool) (dflt : List (PStr × StrClass)) (sc : Option (List (PStr × StrClass))) :
+    Option (List (PStr × StrClass)) :=
+  if picklable then sc else builderStringContainers dflt .useDefault
 
 /-- `BeautifulSoup.new_tag(name)`: `Tag(None, self.builder, name, …)` -/
 def newTagInteresting (main : List StrClass) (sc : Option (List (PStr × StrClass))) (name : PStr) : InitResult :=
